@@ -695,6 +695,24 @@ def r4_auth(chk: Check) -> None:
                    "the provider is wrapped only when the filter set is EMPTY: filters are dropped", sp.loc(wraps[0]))
     else:
         chk.undecided("C19.R4", sp, "non-empty filter set => SelectiveAuthProvider", "wrapping idiom not recognised", sp.loc())
+    # MUST-PASS: every registration (every append to the provider list) lies behind the filter test - an early exit that
+    # stores the provider before it (caching disabled, a special provider kind) drops the filters of that registration
+    g = cfg_of(sp)
+    tests = guard_tests(g, lambda e: "filter_set.is_empty()" in unparse(e, 400))
+    appends = [c for c in body_calls(sp) if last_attr(c) in ("append", "insert", "extend") and unparse(c.func).startswith("self.providers")]
+    if not appends:
+        chk.undecided("C19.R4", sp, "every stored provider passed the filter test", "no `self.providers.append(...)` found", sp.loc())
+    for c in appends:
+        construct = f"`{unparse(c, 50)}` is reached only past the filter test"
+        nodes_ = list(g.stmt_nodes_containing(c))
+        if not tests:
+            chk.undecided("C19.R4", sp, construct, "filter test not found", sp.loc(c))
+        elif nodes_ and g.path([g.entry], nodes_, avoid=[t_[0] for t_ in tests]) is None:
+            chk.ok("C19.R4", sp, construct, "", sp.loc(c))
+        else:
+            chk.violation("C19.R4", sp, construct,
+                          "there is a path from the entry to this store that does not pass `filter_set.is_empty()`: a provider registered on that path (e.g. `refresh_interval=None`) is stored WITHOUT its SelectiveAuthProvider wrapper - `apply_to` / `skip_for` are accepted and silently ignored, the provider is applied to every operation and shadows the providers registered after it",
+                          sp.loc(c))
     get = P.func("auths.py:SelectiveAuthProvider.get")
     g = cfg_of(get)
     tests = guard_tests(g, lambda e: "filter_set.match(" in unparse(e, 400))
